@@ -318,6 +318,7 @@ type MutexObj struct {
 	waiters []*G
 	name    string
 	clock   []int
+	inDag   bool
 }
 
 func (r *Run) mutexOf(p Ptr, name string) *MutexObj {
@@ -326,6 +327,11 @@ func (r *Run) mutexOf(p Ptr, name string) *MutexObj {
 	}
 	r.mutexCounter++
 	m := &MutexObj{id: r.mutexCounter, pending: map[*G]bool{}, rholders: map[*G]int{}, name: name}
+	if r.cur != nil && len(r.cur.stack) > 0 {
+		if fn := r.cur.top().fn; fn.Pkg != nil && fn.Pkg.Pkg.Path() == "github.com/heimdalr/dag" {
+			m.inDag = true
+		}
+	}
 	r.syncObjs[p] = m
 	return m
 }
@@ -449,7 +455,23 @@ func (r *Run) atSyncPoint(g *G) bool {
 		return x.Op.String() == "<-"
 	case *ssa.Call:
 		if f := x.Call.StaticCallee(); f != nil {
-			return r.eng.syncFuncs[f.String()]
+			if !r.eng.syncFuncs[f.String()] {
+				return false
+			}
+			// inside heimdalr/dag every public method takes muDAG first and keeps it to the end; its
+			// nested cache / per-vertex mutexes are only ever taken under muDAG, so a preemption at
+			// them (or at the releases) adds no behaviour beyond a preemption at the muDAG acquisition.
+			if fr.fn.Pkg != nil && fr.fn.Pkg.Pkg.Path() == "github.com/heimdalr/dag" && strings.HasPrefix(f.String(), "(*sync.") {
+				if !strings.HasSuffix(f.String(), "Lock") || strings.HasSuffix(f.String(), "Unlock") {
+					return false
+				}
+				for m := range g.held {
+					if mo, ok := m.(*MutexObj); ok && mo.inDag {
+						return false
+					}
+				}
+			}
+			return true
 		}
 	case *ssa.Defer:
 		return false
